@@ -25,7 +25,14 @@ fn strategy(tier: Tier) -> BoxedStrategy<Case> {
     let n_multi = tier.pick(6usize, 40usize);
     (
         scen::scenario_strategy(true, false),
-        prop::collection::vec(prop::collection::vec((any::<u16>(), 0u8..4), 1..8), n_multi..=n_multi),
+        prop::collection::vec(
+            prop_oneof![
+                3 => prop::collection::vec((any::<u16>(), 0u8..4), 1..8),
+                // dense plans: a sizeable fraction of the operations fail
+                1 => prop::collection::vec((any::<u16>(), 0u8..4), 8..40),
+            ],
+            n_multi..=n_multi,
+        ),
     )
         .prop_map(|(sc, multi)| Case { sc, multi })
         .boxed()
@@ -200,7 +207,7 @@ pub fn prop() -> Prop<Case> {
     Prop {
         id: "C04",
         level: "fault_enumeration",
-        rule: "scenario as C03 (small blocks/caps so several combined-block flushes happen) generated by proptest; inner domain enumerated per scenario: every operation of the logged storage trace of the backup (reads, lists, metadata, writes, create_dir; quick thins to <=60 evenly spaced) x {not-found, already-exists, permission-denied, other} as a single injected failure, plus generated multi-fault plans (1-7 failing positions). Oracle per plan: no panic; every file that existed before is byte-identical afterwards; every File entry the independent decoder finds in any band reassembles to exactly that path's bytes in the tree that band was made from (never dangling, never another file's); if the backup reports complete success (Ok, no monitor error, stats.errors==0) the band is closed and restores exactly; a closed band that does not restore exactly implies an error was reported. Non-trivial = the failing operation is a write/create_dir under d/ or the band directory, or a read of an index hunk, or a plan with >=2 faults; counted per (scenario, plan), distinct by construction",
+        rule: "scenario as C03 (small blocks/caps so several combined-block flushes happen) generated by proptest; inner domain enumerated per scenario: every operation of the logged storage trace of the backup (reads, lists, metadata, writes, create_dir; quick thins to <=60 evenly spaced) x {not-found, already-exists, permission-denied, other} as a single injected failure, plus generated multi-fault plans (1-7 failing positions, a quarter of them dense with 8-39). Oracle per plan: no panic; every file that existed before is byte-identical afterwards; every File entry the independent decoder finds in any band reassembles to exactly that path's bytes in the tree that band was made from (never dangling, never another file's); if the backup reports complete success (Ok, no monitor error, stats.errors==0) the band is closed and restores exactly; a closed band that does not restore exactly implies an error was reported. Non-trivial = the failing operation is a write/create_dir under d/ or the band directory, or a read of an index hunk, or a plan with >=2 faults; counted per (scenario, plan), distinct by construction",
         assumptions: &[
             "an injected failure has no side effect on the directory (the operation is not attempted)",
             "faults are injected at transport-operation granularity via the verif_hooks interceptor",
